@@ -20,6 +20,8 @@ package realm
 import (
 	"bytes"
 	"context"
+	"crypto/sha256"
+	"encoding/hex"
 	"errors"
 	"fmt"
 	"math/rand"
@@ -72,6 +74,21 @@ func vfC03Meta(n int) PunchMetadata {
 	}
 }
 
+// vfC03PunchPacket is a deterministic encoder of the punch wire format (salt and padding from the
+// harness PRNG; EncodePunchPacket draws them from crypto/rand): 8-byte salt, then
+// magic "HYRLMv1\x00" | type | 16-byte nonce | padding, XORed with SHA-256(obfs key | salt) repeated.
+func vfC03PunchPacket(rng *rand.Rand, typ PunchPacketType, meta PunchMetadata, padding int) []byte {
+	nonce, _ := hex.DecodeString(meta.Nonce)
+	key, _ := hex.DecodeString(meta.Obfs)
+	salt := vfC03Fill(rng, 2, 8)
+	plain := vfC03Cat([]byte{'H', 'Y', 'R', 'L', 'M', 'v', '1', 0, byte(typ)}, nonce, vfC03Fill(rng, 2, padding))
+	mask := sha256.Sum256(vfC03Cat(key, salt))
+	for i := range plain {
+		plain[i] ^= mask[i%len(mask)]
+	}
+	return vfC03Cat(salt, plain)
+}
+
 func vfC03STUNResponse(txID [stun.TransactionIDSize]byte, addr netip.AddrPort, xor bool, extra ...stun.Setter) []byte {
 	setters := []stun.Setter{stun.BindingSuccess, stun.NewTransactionIDSetter(txID)}
 	if xor {
@@ -112,9 +129,9 @@ func TestVerifC03RealmPunch(t *testing.T) {
 			}
 		}
 	})
-	valid, err := EncodePunchPacket(PunchPacketHello, meta)
-	if err != nil {
-		t.Fatal(err)
+	valid := vfC03PunchPacket(k.Rand("valid"), PunchPacketHello, meta, 200)
+	if p, err := DecodePunchPacket(vfExact(valid), meta); err != nil || p.Type != PunchPacketHello || p.PaddingLength != 200 {
+		t.Fatalf("harness: the reference punch encoder disagrees with the decoder: %+v %v", p, err)
 	}
 	// input = "nonce|obfs" as delivered by the rendezvous server
 	r.Entry(entryMeta, func(b []byte) {
@@ -169,11 +186,8 @@ func TestVerifC03RealmPunch(t *testing.T) {
 			emit(vfC03Cat(valid[:punchMinWireLen], vfC03Fill(rng, 2, l-punchMinWireLen)))
 		}
 	}
-	for i := 2; i < 6; i++ {
-		seed, _ := EncodePunchPacket([]PunchPacketType{PunchPacketHello, PunchPacketAck}[i%2], meta)
-		if i >= 4 {
-			seed = seed[:punchMinWireLen+i] // short padding: every byte gets mutated
-		}
+	for i, pad := range []int{0, 7, 300, MaxPunchPadding} {
+		seed := vfC03PunchPacket(rng, []PunchPacketType{PunchPacketHello, PunchPacketAck}[i%2], meta, pad)
 		vfC03Mutations(rng, seed, nil, nil, k.N(300, 6000), emit)
 	}
 	vfC03Random(rng, k.N(4000, 80000), 1200, emit)
@@ -413,7 +427,7 @@ func TestVerifC03RealmConn(t *testing.T) {
 			var pkt []byte
 			switch rng.Intn(10) {
 			case 0, 1: // punch packet of a registered attempt, damaged
-				pkt, _ = EncodePunchPacket(PunchPacketHello, metas["a1"])
+				pkt = vfC03PunchPacket(rng, PunchPacketHello, metas["a1"], rng.Intn(MaxPunchPadding+1))
 				switch rng.Intn(4) {
 				case 0:
 					pkt = pkt[:rng.Intn(len(pkt)+1)]
@@ -423,7 +437,7 @@ func TestVerifC03RealmConn(t *testing.T) {
 					pkt = append(pkt, vfC03Fill(rng, 2, 1+rng.Intn(1200))...)
 				}
 			case 2: // punch packet of an attempt that was removed / never registered
-				pkt, _ = EncodePunchPacket(PunchPacketAck, []PunchMetadata{removed, vfC03Meta(999999)}[rng.Intn(2)])
+				pkt = vfC03PunchPacket(rng, PunchPacketAck, []PunchMetadata{removed, vfC03Meta(999999)}[rng.Intn(2)], rng.Intn(MaxPunchPadding+1))
 			case 3, 4, 5: // STUN-like
 				pkt = append([]byte(nil), seeds[rng.Intn(len(seeds))]...)
 				switch rng.Intn(5) {
@@ -512,8 +526,7 @@ func FuzzVerifC03RealmPackets(f *testing.F) {
 	for _, s := range vfC03STUNSeeds() {
 		f.Add(s)
 	}
-	valid, _ := EncodePunchPacket(PunchPacketHello, vfC03Meta(1))
-	f.Add(valid)
+	f.Add(vfC03PunchPacket(rand.New(rand.NewSource(1)), PunchPacketHello, vfC03Meta(1), 100))
 	f.Fuzz(func(t *testing.T, b []byte) {
 		z.Exec("realm:PunchPacketConn.ReadFrom", b, func(b []byte) {
 			fake := &vfC03RConn{q: []vfC03RPkt{{b, vfC03UDPAddr(nil, 1)}}}
